@@ -789,8 +789,10 @@ class ConstructUses:
         if isinstance(t, ast.UnaryOp) and isinstance(t.op, ast.Not) and st.body and isinstance(st.body[0], ast.Raise):
             src = ast.unparse(t.operand)
             for name, v in self.env.items():
-                if v[0] == "resolved" and f"issubclass({name}, np.random.BitGenerator)" in src \
-                        and f"isinstance({name}, type)" in src:
+                # the whole condition, not a substring of it (`... or True` must not count as a guard); the guard must be
+                # the only thing in the `if` and have no else branch
+                if v[0] == "resolved" and src == f"isinstance({name}, type) and issubclass({name}, np.random.BitGenerator)" \
+                        and len(st.body) == 1 and not st.orelse:
                     return (v[1], "numpy.random.BitGenerator")
         return None
 
